@@ -131,6 +131,7 @@ Record request := {
   q_host : string;                      (* Host field *)
   q_headers : list (string * string);   (* the other field lines, as sent (any casing), in order *)
   q_body : string;
+  q_tls : bool;                         (* the connection to heimdall is TLS (req.TLS != nil) *)
   q_peer : string;                      (* address of the peer as httpx.IPFromHostPort renders it *)
   q_trusted : bool;                     (* oracle: the peer is in trusted_proxies *)
   q_xfu : option (string * string)      (* oracle: url.Parse of the X-Forwarded-Uri the view sees: EscapedPath(), Query().Encode() *)
@@ -145,18 +146,27 @@ Inductive setting := Off | On | NoDecode.
 Record rule := {
   r_setting : setting;
   r_backend : backend;          (* forward_to *)
-  r_up_tls : bool               (* environment: the server at forward_to.host speaks TLS *)
+  r_up_tls : bool;              (* environment: the server at forward_to.host speaks TLS *)
+  r_tracing : bool              (* environment: tracing is enabled (heimdall's default), a propagator is installed *)
 }.
 
 (** which repairs the modelled tree contains: C08-F2 (case-insensitive %2f
     under `off`, owned by C08), C13-F3 (all values of a pipeline header are
-    handed over, owned by C13) and C15-F1 *)
-Record fixes := { fx_c08f2 : bool; fx_c13f3 : bool; fx_f1 : bool; fx_f4 : bool }.
-Definition pinned : fixes := {| fx_c08f2 := false; fx_c13f3 := false; fx_f1 := false; fx_f4 := false |}.
+    handed over, owned by C13), C15-F1, -F4, and the candidates -F6
+    (fixes/C15-F6.diff) and -F7 (fixes/C15-F7.diff) *)
+Record fixes := { fx_c08f2 : bool; fx_c13f3 : bool; fx_f1 : bool; fx_f4 : bool; fx_f6 : bool; fx_f7 : bool }.
+Definition fx_q (fx : fixes) : qfix := {| qf1 := fx_f1 fx; qf6 := fx_f6 fx |}.
+Definition pinned : fixes :=
+  {| fx_c08f2 := false; fx_c13f3 := false; fx_f1 := false; fx_f4 := false; fx_f6 := false; fx_f7 := false |}.
 (** the tree before C15's own repairs: C08-F2 repaired by a779db8, C13-F3 by a5ef279 *)
-Definition current : fixes := {| fx_c08f2 := true; fx_c13f3 := true; fx_f1 := false; fx_f4 := false |}.
-(** the tree as it is now: C15-F1 repaired by 41fd1db, C15-F4 by 35453b2 *)
-Definition repaired : fixes := {| fx_c08f2 := true; fx_c13f3 := true; fx_f1 := true; fx_f4 := true |}.
+Definition current : fixes :=
+  {| fx_c08f2 := true; fx_c13f3 := true; fx_f1 := false; fx_f4 := false; fx_f6 := false; fx_f7 := false |}.
+(** C15-F1 repaired by 41fd1db, C15-F4 by 35453b2 *)
+Definition repaired : fixes :=
+  {| fx_c08f2 := true; fx_c13f3 := true; fx_f1 := true; fx_f4 := true; fx_f6 := false; fx_f7 := false |}.
+(** ... and with fixes/C15-F6.diff and fixes/C15-F7.diff *)
+Definition repaired2 : fixes :=
+  {| fx_c08f2 := true; fx_c13f3 := true; fx_f1 := true; fx_f4 := true; fx_f6 := true; fx_f7 := true |}.
 
 (** * what heimdall sees *)
 
@@ -187,7 +197,8 @@ Definition view_url (q : request) : option hurl :=
   | None => None
   | Some (p0, rp0) =>
     let h := in_headers q in
-    let proto := let p := h_get "X-Forwarded-Proto" h in if is_empty p then "http" else p in
+    let proto := let p := h_get "X-Forwarded-Proto" h in
+                 if is_empty p then (if q_tls q then "https" else "http") else p in
     let host := let x := h_get "X-Forwarded-Host" h in if is_empty x then q_host q else x in
     let xfu := if is_empty (h_get "X-Forwarded-Uri" h) then None else q_xfu q in
     let raw1 := match xfu with Some (p, _) => p | None => "" end in
@@ -206,12 +217,12 @@ Definition has_enc_slash (ci : bool) (p : string) : bool :=
 (** [None]: ErrArgument "path contains encoded slash" *)
 Definition execute (fx : fixes) (r : rule) (u : hurl) : option hurl :=
   match r_setting r with
-  | On => Some (create_url_fx (fx_f1 fx) (r_backend r)
+  | On => Some (create_url_q (fx_q fx) (r_backend r)
                   {| u_scheme := u_scheme u; u_host := u_host u; u_path := u_path u;
                      u_rawpath := EmptyString; u_query := u_query u |})
   | Off => if has_enc_slash (fx_c08f2 fx) (u_rawpath u) then None
-           else Some (create_url_fx (fx_f1 fx) (r_backend r) u)
-  | NoDecode => Some (create_url_fx (fx_f1 fx) (r_backend r) u)
+           else Some (create_url_q (fx_q fx) (r_backend r) u)
+  | NoDecode => Some (create_url_q (fx_q fx) (r_backend r) u)
   end.
 
 (** * httputil.ReverseProxy before Rewrite *)
@@ -262,13 +273,18 @@ Definition sort_cookies (l : list (string * string)) := fold_right insert_cookie
 Definition forwarded_element (peer host proto : string) : string :=
   "for=" ++ peer ++ ";host=" ++ host ++ ";proto=" ++ proto.
 
-(** the block at the end of rewriteRequest; [hin] = proxyReq.In.Header; TLS is never used towards heimdall here *)
-Definition forwarded_block (hin : header) (in_host peer : string) (h : header) : header :=
+(** a list-valued field spread over several field lines, as one value *)
+Definition h_joined (k : string) (h : header) : string := join_with ", " (h_values k h).
+
+(** the forwarded-header block of rewriteRequest; [hin] = proxyReq.In.Header,
+    [tls] = proxyReq.In.TLS != nil; [all_lines] = with fixes/C15-F7.diff every
+    field line of X-Forwarded-For / Forwarded counts, before only the first *)
+Definition forwarded_block (all_lines tls : bool) (hin : header) (in_host peer : string) (h : header) : header :=
   let fhost := h_get "X-Forwarded-Host" hin in
   let fproto := h_get "X-Forwarded-Proto" hin in
-  let ffor := h_get "X-Forwarded-For" hin in
-  let fwd := h_get "Forwarded" hin in
-  let proto := "http" in
+  let ffor := if all_lines then h_joined "X-Forwarded-For" hin else h_get "X-Forwarded-For" hin in
+  let fwd := if all_lines then h_joined "Forwarded" hin else h_get "Forwarded" hin in
+  let proto := if tls then "https" else "http" in
   if negb (is_empty ffor) || negb (is_empty fproto) || negb (is_empty fhost) then
     let h := h_set "X-Forwarded-For" (if is_empty ffor then peer else ffor ++ ", " ++ peer) h in
     let h := h_set "X-Forwarded-Proto" (if is_empty fproto then proto else fproto) h in
@@ -283,26 +299,27 @@ Definition rewrite_request (fx : fixes) (q : request) (pl : pipeline) (target_ho
   let h := strip_forwarding (remove_hop_by_hop hin) in
   let h := h_del_all ["X-Forwarded-Method"; "X-Forwarded-Uri"; "X-Forwarded-Path"] h in
   (* with fixes/C15-F4.diff the forwarded-header block runs before the pipeline's headers are applied *)
-  let h := if fx_f4 fx then forwarded_block hin (q_host q) (q_peer q) h else h in
+  let h := if fx_f4 fx then forwarded_block (fx_f7 fx) (q_tls q) hin (q_host q) (q_peer q) h else h in
   let uh := upstream_headers pl in
   let h := set_pipeline_headers (fx_c13f3 fx) uh h in
   let ph := h_get "Host" uh in
   let out_host := if is_empty ph then target_host else ph in
   let h := if is_empty ph then h else h_del "Host" h in
   let h := fold_left add_cookie (sort_cookies (p_cookies pl)) h in
-  (out_host, if fx_f4 fx then h else forwarded_block hin (q_host q) (q_peer q) h).
+  (out_host, if fx_f4 fx then h else forwarded_block (fx_f7 fx) (q_tls q) hin (q_host q) (q_peer q) h).
 
 (** * http.Transport *)
 
 (** User-Agent is written from the first value only and not at all when empty
-    (ReverseProxy sets it to "" when the client sent none); Accept-Encoding: gzip
-    is added when the request carries neither Accept-Encoding nor Range and is not HEAD *)
+    (ReverseProxy sets it to "" when the client sent none); a field line
+    Accept-Encoding: gzip is added when the request carries no (non-empty)
+    Accept-Encoding and no Range and is not HEAD *)
 Definition on_the_wire (method : string) (h : header) : header :=
   let h := h_del "Host" h in   (* never written from the map: the Host line comes from Request.Host *)
   let ua := h_get "User-Agent" h in
   let h := if is_empty ua then h_del "User-Agent" h else h_set "User-Agent" ua h in
   if is_empty (h_get "Accept-Encoding" h) && is_empty (h_get "Range" h) && negb (String.eqb method "HEAD")
-  then h_set "Accept-Encoding" "gzip" h else h.
+  then h_add "Accept-Encoding" "gzip" h else h.
 
 (** * the whole way *)
 
